@@ -54,6 +54,7 @@ def run(ctx):
         "tokio::sync::Mutex provides mutual exclusion; HashMap::get_mut(k) returns the entry stored under k",
         "usize message-id overflow (2^64 requests) is out of scope (debug builds assert)",
     ]
+    r8_rpc_waits(chk, fx)
     r1_freshness(chk, fx)
     r2_own_slot(chk, fx)
     r3_state_machine(chk, fx)
@@ -63,6 +64,32 @@ def run(ctx):
 
 
 # ---------------------------------------------------------------------------------------------
+RPC_WAIT_OK = ("Mutex::lock", "ClientMsg::send", "Request::send")
+
+
+def r8_rpc_waits(chk, fx):
+    """'However many requests are outstanding, no caller is left waiting forever': issuing a request waits for the two locks (held
+    only for a bounded piece of work) and for the transport to take the bytes — for nothing whose release depends on *other callers'*
+    reply futures being polled (a permit, a quota, a queue slot, a timer).  Who-may-wait rule over the suspension points of
+    Session::rpc and of every async block it returns (the reply future's own waits are Session::recv's: C07/R4)."""
+    b = fx.user_coroutine(SESSION + "::rpc")
+    bodies = [b] + [x for n, x in sorted(fx.mir.items()) if n.startswith(b.name + "::{closure#") and x.coroutine]
+    n = 0
+    for body in bodies:
+        chk.analysed(body.name)
+        for a in body.await_points():
+            n += 1
+            src = a.get("src")
+            what = src.name() if src is not None else ("a future of type %s" % (body.local_ty(F.op_base(a["poll"].args[0])) if a.get("poll") else "?"))
+            short = T.short(T.strip_generics(what), 2)
+            ok = src is not None and (short in RPC_WAIT_OK or (body is not b and short == "Session::recv"))
+            chk.instance("C05/R8", "Session::rpc waits for %s" % short, body.name, src.loc() if src is not None else loc_of(a.get("sp")), holds=ok,
+                         key="C05/R8 Session::rpc unaudited-wait %s" % short,
+                         detail=None if ok else "a wait whose end depends on other callers: with enough requests outstanding (and their reply futures not yet "
+                         "polled) this caller waits for ever although the server answers everything")
+    chk.floor("C05/R8 suspension points of Session::rpc", n, 3)
+
+
 def r1_freshness(chk, fx):
     # WHO: Request::new / Request aggregates
     n = 0
@@ -146,15 +173,35 @@ def r1_freshness(chk, fx):
     ent = b.calls_to("HashMap::<K, V, S>::entry", "HashMap::<K, V, S, A>::entry", "HashMap::<K, V, S>::insert",
                      "HashMap::<K, V, S, A>::insert", user_only=True)
     rcv = b.calls_to(SESSION + "::recv", user_only=True)
-    if len(rcv) != 1:
+    nested = []
+    if not rcv:
+        # the reply future may be built inside an async block that rpc returns: the id it waits for is then a capture of that block
+        for bi, bl in enumerate(b.blocks):
+            for st in bl["stmts"]:
+                cn = st["rv"].get("coroutine") or st["rv"].get("closure") if st["k"] == "assign" and st["rv"]["k"] == "agg" else None
+                cb = fx.mir.get(cn) if cn else None
+                if cb is None:
+                    continue
+                for rc in cb.calls_to(SESSION + "::recv", user_only=True):
+                    cap = {F.op_base(f) for f in st["rv"]["fields"]}
+                    o2 = cb.backward_origins(F.op_base(rc.args[0]), through_call=lambda c: False)
+                    ok = bool(cap & mid) and bool(o2) and all(o["k"] in ("place", "arg", "resume") for o in o2) and any(o["k"] == "place" for o in o2)
+                    nested.append((cb, rc, ok))
+        if not nested:
+            raise F.AnchorLost("Session::rpc: recv() call site")
+    elif len(rcv) != 1:
         raise F.AnchorLost("Session::rpc: recv() call site")
     chk.instance("C05/R1", "the request is registered in the outstanding-request map", b.name, None, holds=len(ent) >= 1,
                  key="C05/R1 rpc not-registered")
     for e in ent:
         chk.instance("C05/R1", "the request is registered under its own id", b.name, e.loc(), holds=F.op_base(e.args[1]) in mid,
                      key="C05/R1 rpc registered-id")
-    chk.instance("C05/R1", "the reply future waits for the request's own id", b.name, rcv[0].loc(), holds=F.op_base(rcv[0].args[0]) in mid,
-                 key="C05/R1 rpc awaited-id")
+    if rcv:
+        chk.instance("C05/R1", "the reply future waits for the request's own id", b.name, rcv[0].loc(), holds=F.op_base(rcv[0].args[0]) in mid,
+                     key="C05/R1 rpc awaited-id")
+    for (cb, rc, ok) in nested:
+        chk.instance("C05/R1", "the reply future (built in an async block) waits for the captured id of this request", cb.name, rc.loc(), holds=ok,
+                     key="C05/R1 rpc awaited-id")
     # increment body: self.0 += 1; *self
     ib = fx.body(inc.rdef if inc.rdef in fx.mir else inc.defn)
     chk.analysed(ib.name)
@@ -489,9 +536,20 @@ def r4_r5_locks(chk, fx):
     ok = any(x["k"] == "agg" and x["rv"].get("variant") == "Pending" for x in o)
     chk.instance("C05/R4", "the registered state is Pending", b.name, ins[0].loc(), holds=ok, key="C05/R4 Session::rpc registered-state")
     # the reply future is handed out only after registration
-    rcv = b.calls_to(SESSION + "::recv", user_only=True)[0]
-    chk.instance("C05/R4", "the reply future is created only after registration", b.name, rcv.loc(),
-                 holds=b.dominates(ins[0].bb, rcv.bb) or b.ok_dominates(send[0], rcv.bb), key="C05/R4 Session::rpc recv-before-register")
+    rcvs = [(c.bb, c.loc()) for c in b.calls_to(SESSION + "::recv", user_only=True)]
+    if not rcvs:
+        # .. or the async block that will call recv is built after it
+        for bi, bl in enumerate(b.blocks):
+            for st in bl["stmts"]:
+                cn = (st["rv"].get("coroutine") or st["rv"].get("closure")) if st["k"] == "assign" and st["rv"]["k"] == "agg" else None
+                cb = fx.mir.get(cn) if cn else None
+                if cb is not None and cb.calls_to(SESSION + "::recv", user_only=True):
+                    rcvs.append((bi, loc_of(st.get("sp"))))
+    if not rcvs:
+        raise F.AnchorLost("Session::rpc: recv() call site")
+    for (rbb, rloc) in rcvs[:1]:
+        chk.instance("C05/R4", "the reply future is created only after registration", b.name, rloc,
+                     holds=b.dominates(ins[0].bb, rbb) or b.ok_dominates(send[0], rbb), key="C05/R4 Session::rpc recv-before-register")
 
 
 # ---------------------------------------------------------------------------------------------
